@@ -16,7 +16,7 @@
     panic, not out-of-fuel, not "invalid configuration", not any other error kind. *)
 From ClapModel Require Import Base.Bytes Base.Machine Base.Utf8.
 From ClapModel Require Import Parse.Cmd Parse.Build Parse.Valid Parse.Matcher Parse.Errors Parse.Validator Parse.Parser.
-From ClapModel Require Import ParseProofs.Safe ParseProofs.Totality ParseProofs.TotalityMain ParseProofs.FlagSubClass ParseProofs.FsTotality ParseProofs.FsAny.
+From ClapModel Require Import ParseProofs.Safe ParseProofs.Totality ParseProofs.TotalityMain ParseProofs.FlagSubClass ParseProofs.FsTotality ParseProofs.FsAny ParseProofs.FsLine.
 From ClapModel Require ParseProofs.Sites.
 From Coq Require Import ZArith Lia.
 From RecordUpdate Require Import RecordSet.
@@ -355,4 +355,31 @@ Example only_920_examples :
   /\ (unbuilt hyphen2_cmd = true /\ valid hyphen2_cmd = true /\ flag_sub_class hyphen2_cmd = false)
   /\ (unbuilt refuted_nested_cmd = true /\ valid refuted_nested_cmd = true
       /\ parse_top refuted_nested_cmd [[112]; [45; 83; 102; 113; 122]] = OPanicked 920).
+Proof. repeat split; vm_compute; reflexivity. Qed.
+
+(** * lines without multi-character short clusters (FsLine.v): the entry point *)
+Theorem parse_top_single_clusters c0 argv : unbuilt c0 = true -> valid c0 = true -> single_clusters argv = true ->
+  match parse_top c0 argv with OPanicked _ | OOutOfFuel => False | _ => True end.
+Proof.
+  intros Hu Hv Hl. unfold parse_top.
+  destruct (is_set s_no_binary_name c0); [apply do_parse_single_clusters; assumption|].
+  destruct argv as [|bin rest]; [apply do_parse_single_clusters; assumption|].
+  assert (Hl' : single_clusters rest = true).
+  { unfold single_clusters in *. cbn [forallb] in Hl. apply andb_true_iff in Hl. apply Hl. }
+  destruct (c_bin_name c0); [apply do_parse_single_clusters; assumption|].
+  destruct (utf8_valid bin && negb (is_nil bin)); [|apply do_parse_single_clusters; assumption].
+  apply do_parse_single_clusters; [rewrite unbuilt_bin_name; exact Hu|rewrite valid_bin_name; exact Hv|exact Hl'].
+Qed.
+
+(** non-vacuity and sharpness: on the nested definitions of the finding, lines that spell every letter as its own token
+    parse (through two levels of short flag-subcommands); gluing two letters is what reaches the assertion *)
+Example single_clusters_examples :
+  unbuilt stale_cmd = true /\ valid stale_cmd = true /\ flag_sub_class stale_cmd = false
+  /\ single_clusters [[112]; [45; 83]; [45; 120]; [45; 81]; [45; 121]] = true                    (* p -S -x -Q -y *)
+  /\ outcome_kind (parse_top stale_cmd [[112]; [45; 83]; [45; 120]; [45; 81]; [45; 121]]) = Some None
+  /\ single_clusters [[112]; [45; 83; 120]; [45; 81; 121]] = false                                (* p -Sx -Qy *)
+  /\ parse_top stale_cmd [[112]; [45; 83; 120]; [45; 81; 121]] = OPanicked 920
+  /\ single_clusters [[112]; [45; 83]; [45; 195; 169]; [45]; [45; 45]; [45; 45; 120; 61; 49]; [45; 255]] = true
+     (* one multi-byte character, a lone dash, `--`, a long option with a value, a non-UTF-8 byte are all allowed *)
+  /\ single_clusters [[112]; [45; 120; 61]] = false.                                              (* `-x=` is a cluster *)
 Proof. repeat split; vm_compute; reflexivity. Qed.
